@@ -5,6 +5,8 @@ try:
 except ImportError:
     pass
 import numpy as np
+import os
+import shutil
 
 from functools import partial
 from pathlib import Path
@@ -1266,16 +1268,16 @@ class Sampler():
         if filepath.suffix not in ['.h5', '.hdf5']:
             raise ValueError("File ending must '.h5' or '.hdf5'.")
 
-        if filepath.exists():
-            if not overwrite:
-                raise RuntimeError(
-                    "File {} already exists.".format(str(filepath)))
-            else:
-                filepath.unlink()
+        if filepath.exists() and not overwrite:
+            raise RuntimeError(
+                "File {} already exists.".format(str(filepath)))
 
         filepath.parent.mkdir(parents=True, exist_ok=True)
 
-        fstream = h5py.File(filepath, 'x')
+        # Write to a temporary file and atomically replace the target at the
+        # end so that an interruption never leaves a partially written file.
+        filepath_tmp = filepath.with_name(filepath.name + '.tmp')
+        fstream = h5py.File(filepath_tmp, 'w')
         group = fstream.create_group('sampler')
 
         for key in ['n_dim', 'n_live', 'n_update', 'n_like_new_bound',
@@ -1323,6 +1325,7 @@ class Sampler():
         group.attrs['rng_uinteger'] = rng_state['uinteger']
 
         fstream.close()
+        os.replace(filepath_tmp, filepath)
 
     def write_shell_update(self, filepath, shell):
         """Update the sampler data for a single shell.
@@ -1337,7 +1340,12 @@ class Sampler():
         """
         if shell < 0:
             shell = len(self.bounds) + shell
-        fstream = h5py.File(Path(filepath), 'r+')
+        # Update a copy and atomically replace the target at the end so that
+        # an interruption never leaves a partially updated file.
+        filepath = Path(filepath)
+        filepath_tmp = filepath.with_name(filepath.name + '.tmp')
+        shutil.copyfile(filepath, filepath_tmp)
+        fstream = h5py.File(filepath_tmp, 'r+')
         group = fstream['sampler']
 
         for key in ['n_like', 'shell_n', 'shell_n_sample', 'shell_n_eff',
@@ -1368,3 +1376,4 @@ class Sampler():
         group.attrs['rng_uinteger'] = rng_state['uinteger']
 
         fstream.close()
+        os.replace(filepath_tmp, filepath)
